@@ -18,7 +18,7 @@ CONFIGS = [
     ("no_std+serde+rand", ["--no-default-features", "--features", "serde rand"]),
 ]
 
-def cross_section(rng, tier, per=120):
+def cross_section(rng, tier, per=120, gen_tier="quick"):
     cases = []
     here = os.path.dirname(os.path.abspath(__file__))
     for f in sorted(os.listdir(here)):
@@ -27,11 +27,11 @@ def cross_section(rng, tier, per=120):
             continue
         try:
             mod = importlib.import_module(m.group(1))
-            cs = [c for c in mod.generate(rng, "quick") if not c.startswith("h.") and len(c) < 4000]
+            cs = [c for c in mod.generate(rng, gen_tier) if not c.startswith("h.") and len(c) < 4000]
         except Exception:
             continue
         rng.shuffle(cs)
-        cases += cs[: per * (3 if tier == "thorough" else 1)]
+        cases += cs if per is None else cs[: per * (3 if tier == "thorough" else 1)]
     return cases
 
 def generate(rng, tier):
@@ -57,7 +57,12 @@ def extra_checks(ctx):
     ctx["log"]("[C16] build matrix: %s" % matrix)
     # 2. transcripts std/no_std x debug/release
     rng = random.Random(ctx["seed"] * 31 + 16)
-    cases = cross_section(rng, ctx["tier"], per=80)
+    # implementation-only runs are cheap: a large share of every property's API cases, all of the
+    # thorough generators' cases when the tier is thorough or the drift sentinel escalated the budget
+    if ctx.get("gen_tier", ctx["tier"]) == "thorough":
+        cases = cross_section(rng, "quick", per=None, gen_tier="thorough")
+    else:
+        cases = cross_section(rng, "quick", per=700)
     lines = ["%d %s" % (i, c) for i, c in enumerate(cases)]
     variants = [("std-debug", dict(release=False, features=None, target=None)),
                 ("std-release", dict(release=True, features=None, target=None)),
